@@ -95,6 +95,13 @@ func (s *scope) runInitializers() error {
 	s.rootProvider.voidReturnScopedDescriptorsMu.RUnlock()
 
 	for _, descriptor := range initializers {
+		// An initializer that an earlier one depends on has run already
+		if descriptor.Key != nil && descriptor.Group == "" {
+			if _, ok := s.getInstance(instanceKey{Type: descriptor.Type, Key: descriptor.Key}); ok {
+				continue
+			}
+		}
+
 		if _, err := s.createInstance(descriptor); err != nil {
 			_ = s.Close()
 
